@@ -23,9 +23,17 @@ func floatToString(value float64, bitsize int) string {
 		}
 		return "Infinity"
 	}
-	exponent := math.Log10(math.Abs(value))
+	// ES5 9.8.1 chooses the layout from n, the decimal exponent of the shortest
+	// digit string (value = 0.d1d2...dk * 10^n), not from a floating-point
+	// logarithm, which is off by one next to 1e21 and 1e-6.
+	scientific := strconv.FormatFloat(value, 'e', -1, bitsize)
+	mark := len(scientific) - 1
+	for scientific[mark] != 'e' {
+		mark--
+	}
+	exponent, _ := strconv.Atoi(scientific[mark+1:])
 	if exponent >= 21 || exponent < -6 {
-		return matchLeading0Exponent.ReplaceAllString(strconv.FormatFloat(value, 'g', -1, bitsize), "$1$2")
+		return matchLeading0Exponent.ReplaceAllString(scientific, "$1$2")
 	}
 	return strconv.FormatFloat(value, 'f', -1, bitsize)
 }
